@@ -37,8 +37,12 @@ def run(tier, seed):
         pass
     cov = {"candidates": ncand, "confirmed": nconf, "unconfirmed": nunconf, "details": details[:20], "levels_checked": sum(len(v) for v in sr.levels.values()),
            "accepted_levels_without_cascade": missing, "extra_layers": extra_results}
-    return sc.finish("C03", tier, seed, "model_checking", sr, res, rep, agg, samples, cov, t0,
-                     "per symbolic path of each *low routine: sum of primitive energies within 3 keV of the level energy; call-site preconditions of the primitive energy lemmas")
+    rc = sc.finish("C03", tier, seed, "model_checking", sr, res, rep, agg, samples, cov, t0,
+                   "per symbolic path of each *low routine: sum of primitive energies within 3 keV of the level energy; call-site preconditions of the primitive energy lemmas; "
+                   "primary-process energy budget of decay0_bb for the neutrinoless and capture modes (extra_layers)")
+    if any(l.get("broken") for l in extra_results if isinstance(l, dict)):
+        rc = rc or 2
+    return rc
 
 
 def replay(path):
